@@ -22,11 +22,23 @@ func (i *Interpreter) resolveIncludeStatement(statements []ast.Statement, isRoot
 				}
 				continue
 			}
+			// A module that includes itself, directly or through other modules, never ends
+			for _, name := range i.includeStack {
+				if name == include.Module.Value {
+					return nil, exception.Runtime(
+						&stmt.GetMeta().Token,
+						"include cycle detected: %s -> %s",
+						strings.Join(i.includeStack, " -> "), include.Module.Value,
+					)
+				}
+			}
 			included, err := i.includeFile(include, isRoot)
 			if err != nil {
 				return nil, exception.Runtime(&stmt.GetMeta().Token, "%s", err.Error())
 			}
+			i.includeStack = append(i.includeStack, include.Module.Value)
 			recursive, err := i.resolveIncludeStatement(included, isRoot)
+			i.includeStack = i.includeStack[:len(i.includeStack)-1]
 			if err != nil {
 				return nil, err
 			}
